@@ -268,7 +268,7 @@ func (g *gen) addEnum(pkg *Pkg, file *File, constFile *File) *tinfo {
 		constFile.Raw += fmt.Sprintf("\nfunc zzShadow%s() int {\n\tconst %s = 7 // gomacro:no-enum\n\tvar zz%s = %s // local spelling\n\treturn zz%s\n}\n", m, m, m, m, m)
 		g.o.class("enum:member_name_shadowed_in_a_function")
 	}
-	if rapid.IntRange(0, 9).Draw(t, "optOut") == 0 {
+	if rapid.IntRange(0, 5).Draw(t, "optOut") == 0 {
 		on := g.constName(pkg, name, 21, true, "optOutName")
 		v := "0"
 		switch {
@@ -279,9 +279,18 @@ func (g *gen) addEnum(pkg *Pkg, file *File, constFile *File) *tinfo {
 		case base == "float64":
 			v = "9.5"
 		}
-		constFile.Consts = append(constFile.Consts, &Block{Grouped: false, Specs: []*ConstSpec{{
-			Names: []string{on}, Type: name, Exprs: []string{v}, Vals: []string{v}, OfType: []string{""}, Comment: "gomacro:no-enum",
-		}}})
+		spec := &ConstSpec{Names: []string{on}, Type: name, Exprs: []string{v}, Vals: []string{v}, OfType: []string{""}, Comment: "gomacro:no-enum"}
+		if rapid.Bool().Draw(t, "optOutTwoNames") {
+			// const Min, Max T = .., .. // gomacro:no-enum : the marker opts out every name of the specification
+			v2 := map[string]string{"string": `"special2"`, "bool": "false", "float64": "8.5"}[base]
+			if v2 == "" {
+				v2 = "77"
+			}
+			spec.Names = append(spec.Names, g.constName(pkg, name, 22, true, "optOutName2"))
+			spec.Exprs, spec.Vals, spec.OfType = append(spec.Exprs, v2), append(spec.Vals, v2), append(spec.OfType, "")
+			g.o.class("enum:opt_out_multi_name_spec")
+		}
+		constFile.Consts = append(constFile.Consts, &Block{Grouped: false, Specs: []*ConstSpec{spec}})
 		g.o.class("enum:opt_out_member")
 	}
 	return ti
